@@ -9,12 +9,13 @@ CONSTANTS
   Incs = {1, 3}
   InitWins = {1, 5}
   MaxFrames = {3}
-  MaxSend = 3
-  MaxCtl = 3
+  MaxSend = 2
+  MaxCtl = 2
   OutCap = 4
   Eager = TRUE
   MaxCtlQ = 1
   BugContES = FALSE
   BugPadCredit = FALSE
-INVARIANTS WithinGrant WithinMaxFrame CreditReturned NoEligibleQueued LedgerAgrees PrefixFidelity
+  EncodeAtEnqueue = FALSE
+INVARIANTS WithinGrant WithinMaxFrame CreditReturned NoEligibleQueued LedgerAgrees PrefixFidelity HpackInOrder
 CHECK_DEADLOCK FALSE
